@@ -40,9 +40,40 @@ func init() {
 var (
 	poolAccepted atomic.Int64
 	poolFinished atomic.Int64
+
+	// crash-child mode: die before the crashAt-th persistent mutation (0 = never); log the events
+	crashAt   int64
+	mutCount  atomic.Int64
+	childMode bool
+	mutLog    = make(chan string, 1<<16)
 )
 
+func mutClass(kind, arg string) string {
+	switch kind {
+	case "kv.set", "kv.delete":
+		if i := strings.IndexByte(arg, '/'); i > 0 {
+			return kind + ":" + arg[:i]
+		}
+	}
+	return kind
+}
+
 func installCounters() {
+	var mut func(kind, arg string)
+	if childMode {
+		mut = func(kind, arg string) {
+			n := mutCount.Add(1)
+			if crashAt > 0 && n == crashAt {
+				fmt.Printf("CRASH %d %s\n", n, mutClass(kind, arg))
+				os.Stdout.Sync()
+				os.Exit(3)
+			}
+			select {
+			case mutLog <- mutClass(kind, arg):
+			default:
+			}
+		}
+	}
 	verifapi.SetHandlers(func(p string) {
 		switch p {
 		case "wpool.send.accepted":
@@ -50,7 +81,16 @@ func installCounters() {
 		case "wpool.exec.end":
 			poolFinished.Add(1)
 		}
-	}, nil)
+	}, mut)
+}
+
+func init() {
+	commands["crash-child"] = func(args []string) int {
+		childMode = true
+		n, _ := strconv.ParseInt(args[1], 10, 64)
+		crashAt = n
+		return histMain(args[0], "inline")
+	}
 }
 
 // drainPool waits until every accepted pool job has finished.
@@ -421,6 +461,9 @@ func histMain(path, mode string) int {
 		e.cfg.Storage.MaxDirCount = uint64(maxdir)
 		e.cfg.Storage.GCPeriod = time.Hour
 		e.cfg.WPool.NumWorkers = 2
+		if childMode {
+			e.cfg.WPool.NumWorkers = 1 // one cleaner job at a time: the order of mutations is deterministic
+		}
 		e.cfg.WPool.SendDuration = time.Millisecond
 		envs[n] = e
 		if oerr := e.open(); oerr != nil {
@@ -501,6 +544,23 @@ func histMain(path, mode string) int {
 				continue
 			}
 			e.keys, e.keyIds = keys, keyIds
+			if childMode {
+				res := e.step(t)
+				drainPool()
+				evs := []string{}
+			loop:
+				for {
+					select {
+					case ev := <-mutLog:
+						evs = append(evs, ev)
+					default:
+						break loop
+					}
+				}
+				fmt.Fprintf(out, "ACK %s | %s\n", res, strings.Join(evs, " "))
+				out.Flush()
+				continue
+			}
 			fmt.Fprintln(out, e.step(t))
 		}
 	}
